@@ -286,7 +286,7 @@ struct E1 : Engine {
 		if(r.below(3)){ std::string qs; int n = r.below(5); for(int i=0;i<n;i++){ if(i) qs += "&"; qs += rnd_token(r,1,5) + (r.below(8) ? "=" : "") ; qs += rnd_urlenc(r,10); if(r.below(12)==0) qs += "&" ; } q["query"] = qs; q["has_query"] = true; }
 		J hs = J::arr(); int nh = r.below(7); if(r.below(6) == 0) nh = 20 + r.below(120);   // many headers: the environment table grows through several sizes
 		for(int i=0;i<nh;i++){ J h = J::arr(); static const char *names[] = {"X-Custom","Accept","User-Agent","x-lower-case","X-Mixed-Case-Header","Accept-Language","Referer","X-A"}; std::string nm = names[r.below(8)]; nm += std::to_string(i); h.push(nm);
-			std::string v = rnd_token(r,0,nh > 20 ? 6 : 20); if(r.below(3)==0 && nh <= 20) v += (v.empty() ? "x " : " ") + rnd_token(r,1,6) + "; q=0." + std::to_string(r.below(10)) + ", \"quoted \\\" str\" (comment)"; h.push(v); hs.push(h); }
+			std::string v = rnd_token(r,0,nh > 20 ? 6 : 20); if(r.below(3)==0 && nh <= 20) v += (v.empty() ? "x " : " ") + rnd_token(r,1,6) + "; q=0." + std::to_string(r.below(10)) + ", \"quoted \\\" str\" (comment)"; h.push(v); if(r.below(5) == 0) h.push(1 + (int)r.below(2)); hs.push(h); }   // third element: send the value folded over two or three lines (HTTP)
 		// long values (around and above half a string-pool page = 1024 bytes, and above a whole page) get pages of their own in the environment's pool
 		// the front-ends refuse a request head above 16 KiB (http: bytes read until the end of the headers, scgi: header block, which repeats path and query in REQUEST_URI): all long fields of one request share a budget
 		int long_budget = 7000;
@@ -318,7 +318,7 @@ struct E1 : Engine {
 	static Req req_from(const J &q){
 		Req r; r.method = q.gets("method","GET"); if(r.method.empty()) r.method = "GET"; r.script = q.gets("script","/s"); if(r.script != "/a" && r.script != "/f") r.script = "/s"; r.path = q.gets("path","/echo"); if(r.path.empty() || r.path[0] != '/') r.path = "/" + r.path;
 		r.has_query = q.geti("has_query"); r.query = q.gets("query");
-		const J &hs = q.get("headers"); for(size_t i=0;i<hs.size();i++) if(hs.a[i].size() >= 2) r.headers.push_back({hs.a[i].a[0].s,hs.a[i].a[1].s});
+		const J &hs = q.get("headers"); for(size_t i=0;i<hs.size();i++) if(hs.a[i].size() >= 2){ r.headers.push_back({hs.a[i].a[0].s,hs.a[i].a[1].s}); r.fold.push_back(hs.a[i].size() > 2 ? (int)hs.a[i].a[2].as_int() : 0); }
 		const J &cs = q.get("cookies"); for(size_t i=0;i<cs.size();i++) if(cs.a[i].size() >= 2){ r.cookies.push_back({cs.a[i].a[0].s,cs.a[i].a[1].s}); r.cookie_quoted.push_back(cs.a[i].size() > 2 ? (int)cs.a[i].a[2].as_int() : 0); }
 		r.content_type = q.gets("content_type");
 		std::string bk = q.gets("body_kind");
@@ -398,12 +398,12 @@ struct E1 : Engine {
 	// ---- malformed requests (C02): a valid encoding is mutated; "pos" values are taken modulo the length
 	static J gen_mutation(simk::Rng &r,int proto){
 		J m = J::obj(); unsigned x = r.below(100);
-		static const char *generic[] = {"truncate","truncate","flip","insert","delete","garbage","dup_tail","mp_no_final_boundary","mp_bad_part_header","mp_no_name","mp_cut"};
+		static const char *generic[] = {"truncate","truncate","flip","insert","delete","garbage","dup_tail","mp_no_final_boundary","mp_bad_part_header","mp_no_name","mp_cut","fold_insert","fold_insert"};
 		static const char *http_m[] = {"cl_negative","cl_huge","cl_nonnumeric","cl_duplicate","cl_bigger","cl_smaller","header_16k","bare_lf","nul_in_header","no_version","bad_uri","no_colon","header_spaces","cl_over_limit"};
 		static const char *scgi_m[] = {"len_bigger","len_smaller","no_comma","no_final_nul","len_nondigit","len_huge","len_negative","cl_negative","cl_bigger","cl_smaller","odd_fields","cl_over_limit"};
 		static const char *fcgi_m[] = {"bad_version","unknown_type","bad_role","params_wrong_id","record_len_lie","pair_len_overflow","stdin_longer","stdin_shorter","get_values","get_values_then_request","abort_request","params_never_closed","stray_record_in_params","cl_negative","begin_short","stdin_before_params","cl_over_limit"};
 		std::string op;
-		if(x < 45) op = generic[r.below(11)];
+		if(x < 45) op = generic[r.below(13)];
 		else if(proto == 0) op = http_m[r.below(14)]; else if(proto == 1) op = scgi_m[r.below(12)]; else op = fcgi_m[r.below(17)];
 		m["op"] = op; m["pos"] = (long long)r.below(1000000); m["n"] = (int)(1 + r.below(8)); m["byte"] = (int)r.below(256); m["len"] = (int)r.below(3000);
 		static const char *afters[] = {"close","halfclose","halfclose","wait"}; m["after"] = afters[r.below(4)];
@@ -424,6 +424,9 @@ struct E1 : Engine {
 		else if(op == "delete"){ w.erase(pos,std::min<size_t>(n,w.size()-pos)); }
 		else if(op == "garbage"){ w = gen_bytes((uint64_t)m.geti("pos"),len,0); }
 		else if(op == "dup_tail"){ w += w.substr(pos); }
+		else if(op == "fold_insert"){   // a line break followed by white space (what a folded header looks like) at an odd place: mostly 1..3 characters into some line of the request head
+			std::vector<size_t> ls(1,0); for(size_t p = w.find("\r\n");p != std::string::npos && ls.size() < 200;p = w.find("\r\n",p+2)) ls.push_back(p+2);
+			size_t at = ls[pos % ls.size()] + (n <= 5 ? (size_t)(n <= 3 ? 1 : n - 2) : (size_t)(len % 40)); if(at > w.size()) at = w.size(); w.insert(at,std::string("\r\n") + ((byte & 1) ? " " : "\t")); }
 		else if(op == "mp_no_final_boundary" || op == "mp_bad_part_header" || op == "mp_no_name" || op == "mp_cut"){
 			Req q2 = q; if(q2.script == "/f") q2.script = "/a";   // behind a raw content filter nothing parses the body: it would be served
 			q2.method = "POST"; q2.has_body = true; q2.boundary = "XbndX"; q2.content_type = "multipart/form-data; boundary=XbndX"; q2.parts.clear(); Req::Part pt; pt.name = "f"; pt.has_filename = true; pt.filename = "a.bin"; pt.ctype = "text/plain"; pt.content = gen_bytes(5,len % 600,1); q2.parts.push_back(pt); pt.name = "g"; pt.ctype = ""; pt.has_filename = false; pt.content = "v"; q2.parts.push_back(pt);
